@@ -49,11 +49,17 @@ def copy_checks(ctx, rng, world):
             rec.fail(monitor="C12.copy.equal", op="copy(include_frequencies=False)", symptom="empty copy is not empty over the same bins", diff=["frequencies", "bins"], detail={"log": h.log})
         v = h.values_for(e, 3)
         if e.ndim == 1:
-            e.fill(float(v[0, 0]))
-            e.fill_n(v[:, 0])
+            ix = e.fill(float(v[0, 0]), 3)
+            inside = ix is not None and 0 <= ix < e.shape[0]
         else:
-            e.fill(v[0])
-            e.fill_n(v)
+            ix = e.fill(v[0], 3)
+            inside = ix is not None
+        with attach.quiet():
+            tf, te = float(np.asarray(e.frequencies, dtype=float).sum()), float(np.asarray(e.errors2, dtype=float).sum())
+            if inside and not o.is_adaptive() and (tf != 3.0 or te != 9.0):
+                rec.fail(monitor="C12.copy.equal", op="copy(include_frequencies=False)", symptom="the emptied copy does not count a filled value like a new histogram (contents 3, errors2 9 expected)",
+                         diff=["frequencies", "errors2"], detail={"total": tf, "errors2_total": te, "log": h.log})
+        e.fill_n(v[:, 0] if e.ndim == 1 else v)
         e += e.copy()
         if not o.is_adaptive():
             e += o
